@@ -49,6 +49,74 @@ def c02_values(rng, ds):
     return ds
 
 
+RAW_TEXTS = ["one\x01two\ue0e4three", "tab\tseparated", "caf\ue0e9", "\ue0ff\ue0fc", "a\x02\x03b", "x\x7fy \x01", "é\x01ü\ue0f6", "line\nbreak\rret",
+             "\x1f", "end\ue0e4", "q\"uote\x05 back\\slash\ue0fc", "plain text", "\ue0e4\x01\ue0f6 run of three"]
+RAW_COLUMNS = ["plugin_output", "long_plugin_output", "perf_data", "notes", "notes_url", "action_url", "alias", "display_name", "comment", "author"]
+
+
+def _raw_bad(c):
+    o = ord(c)
+    return o < 32 or o == 127 or 0xE080 <= o <= 0xE0FF
+
+
+def _raw_fix_text(s):
+    """bytesToValidUTF8 on the bytes the backend sends for this text: every run of control bytes, DEL and bytes that are not
+    UTF-8 becomes one U+FFFD"""
+    out, run = [], False
+    for c in s:
+        if _raw_bad(c):
+            if not run:
+                out.append("\ufffd")
+            run = True
+        else:
+            out.append(c)
+            run = False
+    return "".join(out)
+
+
+def _raw_walk(v, fn):
+    if isinstance(v, str):
+        return fn(v)
+    if isinstance(v, list):
+        return [_raw_walk(e, fn) for e in v]
+    return v
+
+
+def raw_backend(rng, wb):
+    """A backend that writes its texts byte by byte, like the cores do (`raw_strings`): control bytes are not escaped and a byte
+    of a legacy encoding is not UTF-8 (written U+E080..U+E0FF in the dataset).  lmd's reader repairs a row its JSON decoder
+    rejects (NewResultSet / bytesToValidUTF8); the expected cache content is computed here, outside the Lean model, which starts
+    at decoded JSON values.  Returns the backend for the model: the same tables with the repaired texts."""
+    wb["raw_strings"] = True
+    for tname, t in wb["tables"].items():
+        cols = [c for c in RAW_COLUMNS if c in t["cols"]]
+        if not cols or tname == "columns":
+            continue
+        for row in t["rows"]:
+            if rng.random() < 0.6:
+                for c in rng.sample(cols, min(len(cols), rng.choice([1, 1, 2, 3]))):
+                    row[c] = rng.choice(RAW_TEXTS)
+            if "custom_variable_values" in t["cols"] and row.get("custom_variable_values") and rng.random() < 0.3:
+                row["custom_variable_values"] = [rng.choice(RAW_TEXTS + ["v"]) for _ in row["custom_variable_values"]]
+    fixed = json.loads(json.dumps(wb))
+    for tname, t in fixed["tables"].items():
+        if tname == "columns":
+            continue
+        for row in t["rows"]:
+            dirty = []
+            for val in row.values():
+                _raw_walk(val, lambda s_: dirty.append(any(ord(c) < 32 for c in s_)) or s_)
+            if any(dirty):
+                # a raw control byte makes the decoder reject the row: the whole row is repaired
+                for k in list(row.keys()):
+                    row[k] = _raw_walk(row[k], _raw_fix_text)
+            else:
+                # bytes that are not UTF-8 pass the decoder and are stored as they are; every such byte is printed as U+FFFD
+                for k in list(row.keys()):
+                    row[k] = _raw_walk(row[k], lambda s_: "".join("\ufffd" if 0xE080 <= ord(c) <= 0xE0FF else c for c in s_))
+    return fixed
+
+
 def run_c02(ctx, spec, out):
     rng = random.Random("C02-%d" % ctx["seed"])
     v = out.v
@@ -57,6 +125,7 @@ def run_c02(ctx, spec, out):
     impl_lines, model_lines, cases = [], [], {}
     n = 0
     flag_checks = []
+    raw_worlds = 0
     for _ in range(nworlds):
         ds = c02_values(rng, gen.gen_dataset(rng, {"nbackends": [1, 1, 2, 3]}))
         wbs, mbs = [], []
@@ -64,7 +133,11 @@ def run_c02(ctx, spec, out):
             flavour, flags = worldgen.pick_flavour(rng)
             wb = worldgen.full_backend(schema, b, flavour, flags, rng)
             wbs.append(wb)
-            mbs.append(worldgen.model_backend(schema, wb, flags))
+            if rng.random() < 0.3:
+                raw_worlds += 1
+                mbs.append(worldgen.model_backend(schema, raw_backend(rng, wb), flags))
+            else:
+                mbs.append(worldgen.model_backend(schema, wb, flags))
         cfg = {"max_parallel_peer_connections": rng.choice([1, 3])}
         n += 1
         impl_lines.append({"op": "world", "id": n, "world": {"config": cfg, "backends": wbs}})
@@ -106,6 +179,7 @@ def run_c02(ctx, spec, out):
     for cid, case in cases.items():
         queryfam.evaluate_case(v, case, impl.get(cid), model.get(cid), set())
     out.extra_cov["worlds"] = nworlds
+    out.extra_cov["backends_writing_raw_bytes"] = raw_worlds
 
 
 # ---------------------------------------------------------------------------------------------
